@@ -194,6 +194,28 @@ func TestC10SyncReplies(t *testing.T) {
 		if _, why := ref.AcceptSyncReply(raw, w.srvKey.Pub, cw.devKey.Pub, s.gca.Pub, time.Now().Unix(), ref.Verify); why != "" {
 			s.fail("the genuine reply is not acceptable by the reference rule: %s", why)
 		}
+		// the request may arrive in pieces (a slow uplink): the answer must be the
+		// one for the id as a whole - the device's reply, or the refusal for an id
+		// that merely shares its low bytes with a device
+		{
+			cut := rapid.IntRange(1, 3).Draw(t, "splitAt")
+			split, refusedSplit, err := s.S.SyncDeviceSplit(cw.devID, cut)
+			if err != nil || refusedSplit {
+				s.fail("sync request sent in two pieces (cut after %d bytes) was not answered for the device: err=%v refused=%v", cut, err, refusedSplit)
+			}
+			rs, err := ref.DecodeSyncReply(split)
+			rw, _ := ref.DecodeSyncReply(raw)
+			if err != nil || rs.DeviceKey != rw.DeviceKey || rs.Bitfield != rw.Bitfield || rs.Offset != rw.Offset {
+				s.fail("sync request sent in two pieces got a different answer than the same request sent at once")
+			}
+			alias := cw.devID + uint32(rapid.IntRange(1, 255).Draw(t, "aliasHigh"))<<(8*uint(rapid.IntRange(1, 3).Draw(t, "aliasByte")))
+			if _, isDev := s.M.Devices[alias]; !isDev {
+				if _, refusedAlias, err := s.S.SyncDeviceSplit(alias, cut); err != nil || !refusedAlias {
+					s.fail("sync for the unknown id %#x sent in two pieces (cut after %d bytes) must be refused (err=%v refused=%v)", alias, cut, err, refusedAlias)
+				}
+			}
+			ev.Label("c10:split-request")
+		}
 		// unknown id
 		if _, refused, err := s.S.SyncDevice(rapid.SampledFrom([]uint32{0, 999, math.MaxUint32, 77}).Draw(t, "unknownID")); err != nil || !refused {
 			s.fail("sync for an unknown id must answer the refusal byte (err=%v refused=%v)", err, refused)
